@@ -561,13 +561,25 @@ Proof.
   apply pres_clone; auto.
 Qed.
 
-Theorem rollback_frame g cbm sid st : Good g st -> cbm <> g -> sid <> g -> out_pres g st (rollback cbm sid st).
+Lemma rollback_gen_live b cbm sid st :
+  gexists sid st = true -> gexists sid (delete_graph cbm st) = true ->
+  rollback_gen b cbm sid st = rehome sid cbm (delete_graph cbm st).
+Proof. intros G G'. unfold rollback_gen. destruct b; cbv zeta; [rewrite G|rewrite G']; reflexivity. Qed.
+
+Theorem rollback_gen_frame b g cbm sid st :
+  Good g st -> cbm <> g -> sid <> g -> out_pres g st (rollback_gen b cbm sid st).
 Proof.
-  intros G NC NS. unfold rollback.
+  intros G NC NS. unfold rollback_gen.
   pose proof (pres_delete_graph g st cbm G NC) as P1.
-  destruct (negb (gexists sid (delete_graph cbm st))); simpl; auto.
-  eapply out_pres_trans; eauto. apply pres_rehome; auto. apply P1.
+  destruct b; cbv zeta.
+  - destruct (negb (gexists sid st)); simpl; [apply Pres_refl; auto|].
+    eapply out_pres_trans; eauto. apply pres_rehome; auto. apply P1.
+  - destruct (negb (gexists sid (delete_graph cbm st))); simpl; auto.
+    eapply out_pres_trans; eauto. apply pres_rehome; auto. apply P1.
 Qed.
+
+Theorem rollback_frame g cbm sid st : Good g st -> cbm <> g -> sid <> g -> out_pres g st (rollback cbm sid st).
+Proof. apply rollback_gen_frame. Qed.
 
 (* ---------- the canonical view of g depends only on g's part of the store ---------- *)
 Lemma nid_of_int_in ns i x : nid_of_int ns i = Some x -> In i (map n_int ns).
